@@ -20,6 +20,7 @@
 import CatVerif.Spec.Resp
 import CatVerif.Proofs.Log
 import CatVerif.Proofs.Graph
+import CatVerif.Proofs.Steps
 namespace Cat
 open St Spec
 
@@ -128,5 +129,12 @@ theorem C10_varcb_abort_event (D : Desc) (s : St) (i : SvcIn) (hs : s.ustate = .
 
 /-- non-vacuity: DATA_NEXT from a read handler of the command machine -/
 example : respSpec .read .cmd 1 = .dataThenAgain ∧ Gen.process_read_loop 1 .cmd = [.startFlush .fmtRead] := by decide
+
+/-- the four handler loops are: call the handler, perform the calls the generated return-code table lists for its
+answer, return BUSY — the shape re-recognised in the source on every run (translator item T19; the tables are T3) -/
+theorem C10_loops_generated (D : Desc) (s : St) (f : Fsm) (i : SvcIn) :
+    processWriteLoop D s i = Gen.process_write_loop_fn D s i ∧ processRunLoop D s i = Gen.process_run_loop_fn D s i ∧
+    processReadLoop D s f i = Gen.process_read_loop_fn D s f i ∧ processTestLoop D s f i = Gen.process_test_loop_fn D s f i :=
+  ⟨rfl, rfl, rfl, rfl⟩
 
 end Cat
